@@ -36,7 +36,7 @@ ASSUMPTIONS = ["history quantifier: induction over the sequence of operations, e
                "propagating transform, Sim(3) transforms (fix 55f4c1d), quaternion-built storage mode: bounded histories"]
 EXPLANATION = "representation-level contracts per operation + closure lemma for SE(3)"
 
-OPS = ["transform_left", "transform_right", "transform_prop", "transform_sim3", "transform_prop_sim3", "transform_right_sim3", "scale", "reduce", "downsample", "motion",
+OPS = ["transform_left", "transform_right", "transform_prop", "transform_sim3", "transform_prop_sim3", "transform_right_sim3", "scale", "reduce", "reduce_repeat", "downsample", "motion",
        "crop", "align", "align_origin", "project", "copy"]
 READS = ["positions_xyz", "orientations_quat_wxyz", "poses_se3", "distances", "path_length", "speeds", "none"]
 
@@ -138,6 +138,16 @@ def chk_history(inp):
                 if not np.allclose(np.array(t.poses_se3), old[ids], atol=1e-12) or \
                         (inp["stamps"] and not np.array_equal(t.timestamps, old_ts[ids])):
                     return [tag + ": index_reduction"]
+            elif op == "reduce_repeat":
+                # an index list that names a pose twice (paths without stamps only: a repeated stamp would be invalid); the
+                # two copies must behave as two poses under every later operation (seed C08-c: shared matrix objects)
+                ids = sorted(rng.choice(n, size=max(1, n - 1), replace=False).tolist())
+                if not inp["stamps"]:
+                    ids = sorted(ids + [ids[len(ids) // 2]])
+                t.reduce_to_ids(ids)
+                if not np.allclose(np.array(t.poses_se3), old[ids], atol=1e-12) or \
+                        (inp["stamps"] and not np.array_equal(t.timestamps, old_ts[ids])):
+                    return [tag + ": index_reduction"]
             elif op == "downsample":
                 N = max(1, n - int(rng.integers(0, 4)))
                 t.downsample(N)
@@ -202,7 +212,7 @@ def _cases(tier, seed):
     import itertools
     rng = np.random.default_rng(seed + 808)
     depth = 2 if tier == "quick" else 3
-    core = ["transform_left", "transform_right", "transform_prop", "transform_sim3", "transform_prop_sim3", "scale", "reduce",
+    core = ["transform_left", "transform_right", "transform_prop", "transform_sim3", "transform_prop_sim3", "scale", "reduce", "reduce_repeat",
             "align_origin", "project", "copy"]
     # exhaustive to a bounded depth, from both construction modes, with and without stamps
     for ops in itertools.product(core, repeat=depth):
